@@ -15,6 +15,8 @@
 #include <crypto/siphash.h>
 #include <crypto/sha3.h>
 #include <uint256.h>
+#include <crypto/aes.h>
+#include <hash.h>
 #include <algorithm>
 #include <map>
 #include <span>
@@ -202,6 +204,102 @@ std::string all_sha256_impls(F f)
     for (auto& r : res) out += " [" + r.first + "]=" + r.second;
     return out;
 }
+constexpr size_t CANARY = 32;
+std::string aes_case(const std::vector<std::string>& w, bool& handled)
+{
+    handled = true;
+    if ((w[0] == "aes256_enc" || w[0] == "aes256_dec") && w.size() == 3) {
+        auto key = vd::unhex(w[1]); auto in = vd::unhex(w[2]);
+        if (key.size() != AES256_KEYSIZE || in.size() != AES_BLOCKSIZE) throw std::runtime_error("bad sizes");
+        std::vector<unsigned char> out(AES_BLOCKSIZE + CANARY, 0xa5);
+        if (w[0] == "aes256_enc") AES256Encrypt(key.data()).Encrypt(out.data(), in.data());
+        else AES256Decrypt(key.data()).Decrypt(out.data(), in.data());
+        for (size_t i = AES_BLOCKSIZE; i < out.size(); ++i) if (out[i] != 0xa5) return "OVERRUN";
+        return vd::hex(out.begin(), out.begin() + AES_BLOCKSIZE);
+    }
+    if ((w[0] == "aes256cbc_enc" || w[0] == "aes256cbc_dec") && w.size() == 5) {
+        auto key = vd::unhex(w[1]); auto iv = vd::unhex(w[2]); auto data = vd::unhex(w[3]);
+        const bool pad = (w[4] == "1");
+        if (key.size() != AES256_KEYSIZE || iv.size() != AES_BLOCKSIZE) throw std::runtime_error("bad sizes");
+        // aes.h gives no bound; the callers (wallet/crypter.cpp) allocate size + AES_BLOCKSIZE for Encrypt and size for Decrypt
+        const size_t cap = data.size() + AES_BLOCKSIZE;
+        std::vector<unsigned char> out(cap + CANARY, 0xa5);
+        // an empty vector may have data() == nullptr, which the functions treat like size 0: pass a valid pointer
+        unsigned char dummy = 0;
+        const unsigned char* p = data.empty() ? &dummy : data.data();
+        int n;
+        if (w[0] == "aes256cbc_enc") n = AES256CBCEncrypt(key.data(), iv.data(), pad).Encrypt(p, (int)data.size(), out.data());
+        else n = AES256CBCDecrypt(key.data(), iv.data(), pad).Decrypt(p, (int)data.size(), out.data());
+        for (size_t i = cap; i < out.size(); ++i) if (out[i] != 0xa5) return "OVERRUN";
+        if (n < 0 || (size_t)n > cap) return "BADLEN " + std::to_string(n);
+        return vd::hex(out.begin(), out.begin() + n);
+    }
+    handled = false;
+    return "";
+}
+
+// composite hashers of hash.h, MurmurHash3, and the CBC plaintext round trip
+bool wrap_case(const std::vector<std::string>& w, std::string& out)
+{
+    if (w.size() == 3 && (w[0] == "hash256" || w[0] == "hash160")) {
+        auto msg = vd::unhex(w[1]);
+        auto sz = sizes(w[2]);
+        if (w[0] == "hash256") {
+            out = all_sha256_impls([&] { CHash256 h; feed_span(h, msg, sz); unsigned char d[CHash256::OUTPUT_SIZE]; h.Finalize(d); return vd::hex(d, d + sizeof(d)); });
+        } else {
+            CHash160 h; feed_span(h, msg, sz); unsigned char d[CHash160::OUTPUT_SIZE]; h.Finalize(d); out = vd::hex(d, d + sizeof(d));
+        }
+        return true;
+    }
+    if (w.size() == 4 && w[0] == "taggedhash") {
+        auto tag = vd::unhex(w[1]);
+        auto msg = vd::unhex(w[2]);
+        HashWriter hw = TaggedHash(std::string(tag.begin(), tag.end()));
+        size_t off = 0;
+        for (size_t n : sizes(w[3])) {
+            if (off + n > msg.size()) throw std::runtime_error("fragment sizes exceed the message");
+            std::vector<std::byte> piece(n);
+            for (size_t i = 0; i < n; ++i) piece[i] = std::byte{msg[off + i]};
+            hw.write(piece);
+            off += n;
+        }
+        if (off != msg.size()) throw std::runtime_error("fragment sizes do not cover the message");
+        uint256 r = hw.GetSHA256();
+        out = vd::hex(r.begin(), r.end());
+        return true;
+    }
+    if (w.size() == 5 && w[0] == "bip32hash") {
+        auto cc = vd::unhex(w[1]);
+        auto data = vd::unhex(w[4]);
+        if (cc.size() != 32 || data.size() != 32) { out = "BADCASE"; return true; }
+        ChainCode chain{std::span<const unsigned char>{cc.data(), cc.size()}};
+        unsigned char o[64];
+        BIP32Hash(chain, (unsigned int)vd::ull(w[2]), (unsigned char)vd::ull(w[3]), data.data(), o);
+        out = vd::hex(o, o + 64);
+        return true;
+    }
+    if (w.size() == 3 && w[0] == "murmur3") {
+        auto d = vd::unhex(w[2]);
+        out = std::to_string(MurmurHash3((unsigned int)vd::ull(w[1]), d));
+        return true;
+    }
+    if (w.size() == 5 && w[0] == "aes256cbc_pt") {
+        auto key = vd::unhex(w[1]); auto iv = vd::unhex(w[2]); auto plain = vd::unhex(w[3]);
+        const bool pad = (w[4] == "1");
+        if (key.size() != AES256_KEYSIZE || iv.size() != AES_BLOCKSIZE) throw std::runtime_error("bad sizes");
+        unsigned char dummy = 0;
+        std::vector<unsigned char> ct(plain.size() + AES_BLOCKSIZE + CANARY, 0xa5);
+        int n = AES256CBCEncrypt(key.data(), iv.data(), false).Encrypt(plain.empty() ? &dummy : plain.data(), (int)plain.size(), ct.data());
+        if (n < 0 || (size_t)n > plain.size() + AES_BLOCKSIZE) { out = "BADLEN"; return true; }
+        std::vector<unsigned char> back((size_t)n + AES_BLOCKSIZE + CANARY, 0xa5);
+        int k = AES256CBCDecrypt(key.data(), iv.data(), pad).Decrypt(n ? ct.data() : &dummy, n, back.data());
+        for (size_t i = (size_t)n + AES_BLOCKSIZE; i < back.size(); ++i) if (back[i] != 0xa5) { out = "OVERRUN"; return true; }
+        if (k < 0 || k > n) { out = "BADLEN"; return true; }
+        out = vd::hex(ct.begin(), ct.begin() + n) + " " + vd::hex(back.begin(), back.begin() + k);
+        return true;
+    }
+    return false;
+}
 } // namespace
 
 int main(int argc, char** argv)
@@ -385,6 +483,8 @@ int main(int argc, char** argv)
             return out + (all_ok ? " dec=ok" : " dec=FAIL");
         }
         { std::string r; if (sip_sha3_case(w, r)) return r; }
+        { bool h = false; std::string r = aes_case(w, h); if (h) return r; }
+        { std::string r; if (wrap_case(w, r)) return r; }
         if (w.size() == 1 && w[0] == "sha256impls") {
             std::string out;
             for (auto impl : IMPLS) out += (out.empty() ? "" : "|") + SHA256AutoDetect(impl);
